@@ -30,6 +30,7 @@ RULE_FUNCS = [
     (S.r_locks, ['R03.a']),
     (S.r_check_then_act, ['R03.b']),
     (S.r_pop_discard, ['R03.pop', 'R09.7', 'R09.8']),
+    (S.r_pop_unwrap, ['R04.9', 'R01.5']),
     (S.r_c04, ['R04.1', 'R04.2', 'R04.3', 'R04.4', 'R04.7', 'R04.8']),
     (S.r_abort, ['R05.2', 'R05.3', 'R05.4']),
     (S.r_c19, ['R19.1', 'R19.6']),
@@ -41,6 +42,7 @@ RULE_FUNCS = [
     (D.r_squash, ['R01.7', 'R07.1', 'R13.b', 'R12.e', 'R08.3', 'R08.2']),
     (D.r_restrict, ['R13.b', 'R07.4']),
     (D.r_deleted_sites, ['R07.6']),
+    (D.r_layers, ['R06.5']),
     (D.r_relax, ['R06.1', 'R12.e', 'R12.f', 'R13.b', 'R07.4']),
     (D.r_thresholds, ['R09.1', 'R09.2', 'R09.5']),
     (D.r_filters, ['R09.3', 'R09.4', 'R09.5', 'R10.6', 'R13.a']),
@@ -98,6 +100,8 @@ def mk(prefixes, keep=None):
 
 
 def _c03_keep(r):
+    if r['rule'] == 'R05.2':
+        return r['instance'] == 'par/aborted-only-after-abort'
     if r['rule'].startswith(('R03', 'R02.2')):
         return True
     if r['rule'].startswith(('R01.1', 'R01.2', 'R01.3', 'R01.4', 'R01.5', 'R02.1', 'R02.3', 'R09.7', 'R09.8')):
@@ -107,10 +111,12 @@ def _c03_keep(r):
     return not r['instance'].startswith('seq/')           # shared diagrams, stores and fringes
 
 
-C01_RULES = ['R01.', 'R07.1', 'R07.5', 'R07.6', 'R15.5', 'R06.', 'R08.', 'R09.', 'R10.', 'R11.', 'R12.', 'R18.', 'R02.4', 'R02.5', 'R02.6']
+C01_RULES = ['R05.2', 'R01.', 'R07.1', 'R07.5', 'R07.6', 'R15.5', 'R06.', 'R08.', 'R09.', 'R10.', 'R11.', 'R12.', 'R18.', 'R02.4', 'R02.5', 'R02.6']
 
 
 def _c01_keep_both(r):
+    if r['rule'] == 'R05.2':
+        return 'aborted-only' in r['instance']       # an uninterrupted run must not stop as if it had been aborted
     return 'threshold-order' not in r['instance'] and 'threshold-no-manual' not in r['instance']
 
 
@@ -121,7 +127,7 @@ def _c01_keep(r):
 PROPS = {
     'C01': dict(fn=mk(C01_RULES, lambda r: _c01_keep(r)), explanation='prune polarity at the pop / enqueue / rough-bound sites, restricted->relaxed->enqueue protocol, Complete only on an empty fringe, exactness withdrawn on every path that squashes a layer'),
     'C02': dict(fn=mk(['R02.', 'R12.a', 'R06.1', 'R06.2', 'R06.3', 'R11.d', 'R11.e']), explanation='incumbent value and solution written together from the exact accessors of one diagram (one lock region in the parallel solver), improve-only guard, reported value = best_sol.map(|_| best_lb); longest-path max-update with witness edge; value and path read from one node; exact-best selection table'),
-    'C03': dict(witnesses=['W1', 'W2'], fn=mk(['R01.', 'R02.', 'R03.', 'R06.', 'R07.1', 'R07.5', 'R07.6', 'R15.5', 'R08.', 'R09.', 'R10.', 'R11.', 'R12.', 'R18.'], _c03_keep), explanation='C01 clauses instantiated on ParallelSolver, lock regions (no re-entrant acquisition, one acquisition per check-then-act), pop-time discard polarity, cache mark guarded by must_explore'),
+    'C03': dict(witnesses=['W1', 'W2'], fn=mk(['R05.2', 'R01.', 'R02.', 'R03.', 'R04.9', 'R06.', 'R07.1', 'R07.5', 'R07.6', 'R15.5', 'R08.', 'R09.', 'R10.', 'R11.', 'R12.', 'R18.'], _c03_keep), explanation='C01 clauses instantiated on ParallelSolver, lock regions (no re-entrant acquisition, one acquisition per check-then-act), pop-time discard polarity, cache mark guarded by must_explore'),
     'C04': dict(fn=mk(['R04.', 'R11.c', 'R09.8'], lambda r: r['rule'].startswith(('R04', 'R11')) or r['instance'].startswith(('par/', 'clear-zeroes'))), explanation='checked premises P1-P8 of the deadlock-freedom argument (DESIGN.md C04): pairing of ongoing, release on every worker exit, wake-up not before the decrement, wait guards (path-consistent enumeration), completion guard, no re-entrant lock, vector length coupled to nb_threads, spawn range'),
     'C05': dict(fn=mk(['R05.', 'R19.1', 'R19.2', 'R11.b', 'R11.e', 'R02.1', 'R02.5', 'R01.2', 'R01.3']), explanation='cutoff => Err without finalisation; Err => abort_search on all paths; abort_proof set; completion unreachable after abort; bound stored at abort covers own node, in-flight nodes and fringe top; sequential best_ub written at pop only'),
     'C06': dict(fn=mk(['R06.', 'R02.4', 'R02.6', 'R01.6', 'R01.7', 'R12.e', 'R07.5']), explanation='arc redirection with relaxed cost, relaxed/deleted flags, exactness propagation, complete reset between compilations (field table from the ADT), flag bits and tables, rough-bound pruning direction, exactness withdrawn when squashing'),
